@@ -103,3 +103,40 @@ def distribution_leakage_bounced():
 
 
 REPLAYS["distribution-leakage-bounced-to-consumer"] = distribution_leakage_bounced
+
+
+def late_bounce_mixed_remainder():
+    """a travel-time arc delivers, a timestep after it admitted them, two pushes into a full RiverReservoir whose outlet can
+    only take the first: the reservoir hands the second back as MIXED water (push_set_river_reservoir: 'weird numbers in
+    reply'), the arc books delivered = sent - handed back - negative in the pollutant the reservoir holds and the pushed
+    water did not - and passes the remainder on to today's sender (late bounce), which gets back salt it never offered"""
+    import contextlib
+    import io
+    from wsimod.arcs.arcs import Arc, QueueArc
+    from wsimod.core import constants
+    from wsimod.nodes.nodes import Node
+    from wsimod.nodes.storage import RiverReservoir
+    from wsimod.nodes.waste import Waste
+    constants.set_simple_pollutants()
+    try:
+        with contextlib.redirect_stdout(io.StringIO()):
+            up = Node(name="up")
+            res = RiverReservoir(name="res", capacity=10, area=1, initial_storage={"volume": 10.0, "phosphate": 1.0, "temperature": 10.0},
+                                 environmental_flow=0)
+            out = Waste(name="out")
+            q = QueueArc(name="q", in_port=up, out_port=res, number_of_timesteps=1)
+            o = Arc(name="o", in_port=res, out_port=out, capacity=4)
+            clean = lambda v: {"volume": float(v), "phosphate": 0.0, "temperature": 10.0}
+            q.send_push_request(clean(4))
+            q.send_push_request(clean(3))
+            for x in (q, o, res):
+                x.end_timestep()
+            r = q.send_push_request(clean(1))
+        neg = q.vqip_out["phosphate"] < -1e-12 and q.vqip_out["volume"] >= 0
+        return neg and r["phosphate"] > 1e-12, (f"QueueArc into a full RiverReservoir: out-record {q.vqip_out['volume']:.4g} volume with {q.vqip_out['phosphate']:.4g} phosphate; "
+                                                 f"today's sender offered 1 volume without phosphate and was handed back {r['volume']:.4g} volume with {r['phosphate']:.4g} phosphate")
+    finally:
+        constants.set_default_pollutants()
+
+
+REPLAYS["late-bounce-mixed-remainder"] = late_bounce_mixed_remainder
